@@ -173,12 +173,89 @@ pub fn subsections(nums: &[u32]) -> Vec<(u32, u32)> {
 
 pub const HEADER: &[u8] = b"%PDF-1.5\n%\xE2\xE3\xCF\xD3\n";
 
+/// per-revision options of `build_with` (all default = what `build` does)
+#[derive(Clone, Debug, Default)]
+pub struct RevOpt {
+    /// /Prev: None = the previous revision's section (no /Prev for the first revision);
+    /// Some(None) = no /Prev entry at all; Some(Some(k)) = the section of revision k (k may be the
+    /// revision itself or a later one: a loop)
+    pub prev: Option<Option<usize>>,
+    /// hybrid-reference revision (ISO 32000-1 §7.5.8.4), classic `xk` only: a cross-reference
+    /// stream object (number, Flate?, entries) written after the revision's objects and named by
+    /// /XRefStm in the trailer; it counts as a physical object like any cross-reference stream
+    pub hybrid: Option<(u32, bool, Vec<(u32, Ent)>)>,
+}
+
 pub fn build(revs: &[Rev]) -> Built {
+    build_with(revs, &[])
+}
+
+/// `build` with per-revision options.  /Prev targets that lie later in the file are resolved by
+/// re-running the layout until the section offsets are stable.
+pub fn build_with(revs: &[Rev], opts: &[RevOpt]) -> Built {
+    let mut targets: Vec<u64> = vec![0; revs.len()];
+    let mut last = build_pass(revs, opts, &targets);
+    for _ in 0..8 {
+        if last.xref_off == targets {
+            break;
+        }
+        targets = last.xref_off.clone();
+        last = build_pass(revs, opts, &targets);
+    }
+    last
+}
+
+fn xref_stream_data(ents: &[(u32, Ent)], phys_off: &[u64], self_off: u64) -> Vec<u8> {
+    let mut data = vec![];
+    for (_, e) in ents {
+        let (t, f2, f3) = resolve_ent(e, phys_off, self_off);
+        data.push(t);
+        data.extend_from_slice(&(f2 as u32).to_be_bytes());
+        data.extend_from_slice(&(f3 as u16).to_be_bytes());
+    }
+    data
+}
+
+fn index_text(ents: &[(u32, Ent)]) -> String {
+    let nums: Vec<u32> = ents.iter().map(|(n, _)| *n).collect();
+    let mut t = String::from(" /Index [");
+    for (i, (f, c)) in subsections(&nums).iter().enumerate() {
+        if i > 0 {
+            t.push(' ');
+        }
+        t.push_str(&format!("{} {}", f, c));
+    }
+    t.push(']');
+    t
+}
+
+/// (type, field 2, field 3); a physical index equal to the number of objects written so far means
+/// "the cross-reference stream being written" (`self_off`)
+fn resolve_ent(e: &Ent, phys_off: &[u64], self_off: u64) -> (u8, u64, u64) {
+    match e {
+        Ent::Free { next, gen } => (0, *next as u64, *gen as u64),
+        Ent::At { phys, gen } => {
+            let off = if *phys < phys_off.len() {
+                phys_off[*phys]
+            } else if *phys == phys_off.len() {
+                self_off
+            } else {
+                0
+            };
+            (1, off, *gen as u64)
+        }
+        Ent::Off { off, gen } => (1, *off, *gen as u64),
+        Ent::Comp { stm, idx } => (2, *stm as u64, *idx as u64),
+    }
+}
+
+fn build_pass(revs: &[Rev], opts: &[RevOpt], targets: &[u64]) -> Built {
     let mut b = Built::default();
     b.bytes.extend_from_slice(HEADER);
     let mut max_num: u32 = 0;
     let mut prev: Option<u64> = None;
-    for rev in revs {
+    for (ri, rev) in revs.iter().enumerate() {
+        let opt = opts.get(ri).cloned().unwrap_or_default();
         for p in &rev.objs {
             let off = write_phys(&mut b.bytes, p);
             b.phys_off.push(off);
@@ -191,26 +268,37 @@ pub fn build(revs: &[Rev]) -> Built {
         if let XKind::Stream { num, .. } = &rev.xk {
             max_num = max_num.max(*num);
         }
-        let size = rev.size_override.unwrap_or(max_num + 1);
-        let xoff = b.bytes.len() as u64;
-        // the xref stream object is the next physical object: its own index resolves to xoff
-        let resolve = |e: &Ent, phys_off: &Vec<u64>| -> (u8, u64, u64) {
-            match e {
-                Ent::Free { next, gen } => (0, *next as u64, *gen as u64),
-                Ent::At { phys, gen } => {
-                    let off = if *phys < phys_off.len() {
-                        phys_off[*phys]
-                    } else if *phys == phys_off.len() {
-                        xoff
-                    } else {
-                        0
-                    };
-                    (1, off, *gen as u64)
-                }
-                Ent::Off { off, gen } => (1, *off, *gen as u64),
-                Ent::Comp { stm, idx } => (2, *stm as u64, *idx as u64),
+        if let Some((num, _, hents)) = &opt.hybrid {
+            max_num = max_num.max(*num);
+            for (n, _) in hents {
+                max_num = max_num.max(*n);
             }
+        }
+        let size = rev.size_override.unwrap_or(max_num + 1);
+        let this_prev: Option<u64> = match opt.prev {
+            None => prev,
+            Some(None) => None,
+            Some(Some(k)) => Some(targets.get(k).copied().unwrap_or(0)),
         };
+        // hybrid-reference: the /XRefStm stream comes before the classic section
+        let mut xrefstm_off: Option<u64> = None;
+        if let (XKind::Classic, Some((num, flate, hents))) = (&rev.xk, &opt.hybrid) {
+            let hoff = b.bytes.len() as u64;
+            let mut data = xref_stream_data(hents, &b.phys_off, hoff);
+            let mut dict = format!("/Type /XRef /Size {} /W [1 4 2]", size);
+            dict.push_str(&index_text(hents));
+            if *flate {
+                dict.push_str(" /Filter /FlateDecode");
+                data = deflate(&data);
+            }
+            b.phys_off.push(hoff);
+            b.phys_num.push((*num, 0));
+            b.bytes.extend_from_slice(format!("{} 0 obj\n", num).as_bytes());
+            write_stream(&mut b.bytes, &dict, &data);
+            b.bytes.extend_from_slice(b"\nendobj\n");
+            xrefstm_off = Some(hoff);
+        }
+        let xoff = b.bytes.len() as u64;
         let nums: Vec<u32> = rev.ents.iter().map(|(n, _)| *n).collect();
         let subs = subsections(&nums);
         let mut trailer_pos = None;
@@ -221,7 +309,7 @@ pub fn build(revs: &[Rev]) -> Built {
                 for (first, count) in &subs {
                     b.bytes.extend_from_slice(format!("{} {}\n", first, count).as_bytes());
                     for _ in 0..*count {
-                        let (t, f2, f3) = resolve(&rev.ents[k].1, &b.phys_off);
+                        let (t, f2, f3) = resolve_ent(&rev.ents[k].1, &b.phys_off, xoff);
                         k += 1;
                         // a compressed entry cannot be expressed in a classic table: written as free
                         let flag = if t == 1 { 'n' } else { 'f' };
@@ -231,8 +319,11 @@ pub fn build(revs: &[Rev]) -> Built {
                 }
                 trailer_pos = Some(b.bytes.len());
                 let mut t = format!("trailer\n<< /Size {} /Root {} 0 R", size, rev.root);
-                if let Some(p) = prev {
+                if let Some(p) = this_prev {
                     t.push_str(&format!(" /Prev {}", p));
+                }
+                if let Some(h) = xrefstm_off {
+                    t.push_str(&format!(" /XRefStm {}", h));
                 }
                 if !rev.trailer_extra.is_empty() {
                     t.push(' ');
@@ -242,23 +333,10 @@ pub fn build(revs: &[Rev]) -> Built {
                 b.bytes.extend_from_slice(t.as_bytes());
             }
             XKind::Stream { num, flate } => {
-                let mut data = vec![];
-                for (_, e) in &rev.ents {
-                    let (t, f2, f3) = resolve(e, &b.phys_off);
-                    data.push(t);
-                    data.extend_from_slice(&(f2 as u32).to_be_bytes());
-                    data.extend_from_slice(&(f3 as u16).to_be_bytes());
-                }
+                let mut data = xref_stream_data(&rev.ents, &b.phys_off, xoff);
                 let mut dict = format!("/Type /XRef /Size {} /Root {} 0 R /W [1 4 2]", size, rev.root);
-                dict.push_str(" /Index [");
-                for (i, (f, c)) in subs.iter().enumerate() {
-                    if i > 0 {
-                        dict.push(' ');
-                    }
-                    dict.push_str(&format!("{} {}", f, c));
-                }
-                dict.push(']');
-                if let Some(p) = prev {
+                dict.push_str(&index_text(&rev.ents));
+                if let Some(p) = this_prev {
                     dict.push_str(&format!(" /Prev {}", p));
                 }
                 if !rev.trailer_extra.is_empty() {
